@@ -25,6 +25,12 @@ def rules(chk, db):
     # a malformed value inside an entry must fail in the value's own decoder: the frame would otherwise swallow the damage as padding
     from .. import encrules
     encrules.read_rules(chk, db, want=('GRD',))
+    # ... likewise for scalar values: Match of the integer / float / bool decoders accepts exactly the documented prefix bytes
+    from .. import ilrules
+    chk.rule('MS', 'Match accepts exactly the documented classes (all 256 prefix bytes)', minimum=9)
+    chk.rule('FB', 'float/double/bool match sets and payloads', minimum=3)
+    ilrules.match_sets(chk, db, 'MS')
+    ilrules.float_bool(chk, db, 'FB')
     # the hash a table is validated against is the documented one: SipHash-2-4 of the name under the published table keys
     # (compile-time witnesses shared with C18: a key swap in the overload NOP_TABLE_NS uses goes unnoticed by the reference vectors)
     from . import c18
